@@ -147,10 +147,16 @@ LEVEL_TEXT["C20"] = {
             "expected) on a type mismatch and otherwise iterates exactly section_data's window from offset 0; section_header_by_name equals "
             "`first index in table order whose NUL-terminated UTF-8 name equals the query` (entries with unreadable names skipped), proved "
             "through the iterator/get coherence of C09; the dynamic table through .dynamic equals the one through PT_DYNAMIC when both "
-            "designate the same bytes. find_common_data vs targeted accessors is checked by correspondence and a cross-comparison oracle "
-            "(theorem pending).",
+            "designate the same bytes. find_common_data: its section pass is a fold of the loop body over the headers in table order "
+            "(common_scan_is_fold), each field holds the value computed from the LAST header of its kind (fold_field), the targeted accessors "
+            "use the FIRST; with at most one section of the kind they coincide: common_symtab / common_dynsym (symbol_table() / "
+            "dynamic_symbol_table() return exactly the recorded (table, strings) pair), common_dynamic_section (dynamic() = recorded table "
+            "when a SHT_DYNAMIC section exists), common_dynamic_segment (otherwise the recorded table is the PT_DYNAMIC route = dynamic() of "
+            "the file read without section headers), common_sysv_hash / common_gnu_hash (recorded table = new() on the section's bytes). The "
+            "premise is shown necessary (two sections of a kind: last differs from first). The correspondence and a cross-comparison oracle "
+            "run the same comparison on real ElfBytes.",
     "note": COMMON_NOTE,
-    "technique": "Lean 4 proof + differential correspondence + accessor cross-comparison oracle",
+    "technique": "Lean 4 proof (typed views, by-name = first match, find_common_data = targeted accessors under at-most-one-per-kind) + differential correspondence + accessor cross-comparison oracle",
 }
 
 LEVEL_TEXT["C11"] = {
